@@ -485,7 +485,8 @@ fn opt_json(s: Option<&str>) -> Value {
 /// a typed trace (levels, outermost first) over the universe; `canonical` keeps it inside the
 /// round-trip domain of C17
 pub fn typed_levels(rng: &mut Rng, u: &Universe, canonical: bool) -> Value {
-    let depth = rng.range(1, 5);
+    // usually shallow; now and then a long cause chain
+    let depth = if rng.chance(1, 6) { rng.range(6, 40) } else { rng.range(1, 5) };
     let mut levels = vec![];
     for d in 0..depth {
         let exc = if d > 0 || rng.chance(3, 4) || !canonical && rng.chance(1, 2) {
